@@ -304,7 +304,7 @@ def compare(case, obs, exp, hang=None):
         fe = first_exposed(ea["exposed"], lk["type"])
         want_found = fe is not None
         if lk["found"] != want_found or lk["has"] != want_found or (want_found and lk["value"] != fe["value"]):
-            pids = ["C02", "C10"]
+            pids = ["C02", "C10"] + (["C13"] if lk["type"] == 0x20 else [])
             must.append((pids, "lookup of type %d: impl found=%s has=%s value=%s, specification: %s" % (
                 lk["type"], lk["found"], lk["has"], str(lk["value"])[:80], ("first exposed value %s" % str(fe["value"])[:80]) if fe else "absent")))
     for t in oa.get("typed", []) if isinstance(oa.get("typed"), list) else []:
@@ -1104,6 +1104,31 @@ def c13(rep, tier, seed, wd):
         for pids, what in must:
             if "C13" in pids:
                 rep.violation("XOR-MAPPED-ADDRESS value %s under id %s: %s" % (case["value"], case["tid"], what), {"kind": "attr_case", "case": case})
+            else:
+                for p in pids:
+                    rep.note_foreign(p)
+    # after a trip through the wire the attribute must still be found as the one that was put in: a message with another
+    # attribute type in front of a genuine XOR-MAPPED-ADDRESS (every type code below 0x100, around 0x8000, every 13th /
+    # all in the thorough tier) - lookups of 0x0020 must return the genuine one
+    tset = sorted(set(list(range(0, 0x100)) + list(range(0x8000, 0x8100)) + (list(range(0, 0x10000, 13)) if tier == "quick" else list(range(0x10000)))) - {8, 28, 32808, 0x20})
+    mcases = []
+    for t in tset:
+        front = [t >> 8, t & 255, 0, 8, 0, 1, 0x33, 0x33, 9, 9, 9, 9]
+        xma = [0, 0x20, 0, 8, 0, 1, 0x2c, 0x88, 0xea, 0x12, 0xd5, 0x45]
+        body = front + xma
+        mcases.append({"bytes": [1, 1, 0, len(body), 0x21, 0x12, 0xa4, 0x42] + TID0 + body, "lookup": [0x20, t],
+                       "src": "XOR-MAPPED-ADDRESS behind an attribute of type %#06x" % t})
+    # what that value decodes to is the specification's business (StunAttrs via the attribute judge)
+    want_addr = run_attr_pipeline([{"type": 32, "value": [0, 1, 0x2c, 0x88, 0xea, 0x12, 0xd5, 0x45], "tid": TID0, "src": "front"}], wd, "xorwant")[0][2]["fields"]["addr"]
+    want_addr = {"fam": want_addr["fam"], "ip": want_addr["ip"], "port": want_addr["port"]}
+    for case, obs, exp, hang in run_pipeline(mcases, wd, "xorfront", trace=False):
+        must, asis = compare(case, obs, exp, hang)
+        xm = [t for t in (obs or {}).get("acc", {}).get("typed", []) if isinstance(t, dict) and t.get("type") == 0x20] if obs else []
+        if obs and obs["parse"].get("ok") and (len(xm) != 1 or xm[0].get("addr") != want_addr):
+            must.append((["C13"], "the XOR-MAPPED-ADDRESS of the message decodes to %s" % json.dumps([x.get("addr") for x in xm])))
+        for pids, what in must:
+            if "C13" in pids:
+                rep.violation("%s: %s" % (case["src"], what), {"kind": "codec_case", "case": slim(case)})
             else:
                 for p in pids:
                     rep.note_foreign(p)
